@@ -4,7 +4,8 @@ spec   : specs/Geometry.tla (shared with C01).  The laws are invariants of the m
          every implementation: StackOrtho + NormLaw (|G d| = |d|: |g| lambda = |d/|d| - e_x| = 2 sin(theta), a function
          of d only), OmegaLaw (G(omega2) = Rz(omega2-omega1)^T G(omega1)), Roundtrip (Project returns the ray
          parameter s = 1 and the integer pixel; the generating omega solves a sin x + b cos x = c exactly),
-         EwaldBound (valid => |g| <= 2/lambda).  Machines InitInv / InitRaw decide the validity of a g-vector by integer
+         EwaldBound (valid => |g| <= 2/lambda), UnitLaw (every length of the configuration times u: xyz, o, d times u, the
+         same ray parameter and pixel from Project).  Machines InitInv / InitRaw decide the validity of a g-vector by integer
          comparison (a^2 + b^2 > 0 and c^2 <= a^2 + b^2).  Machine InitAx (AxisLaw; same TLC run as InitRaw) holds the documented conventions of
          gv_general: rot(n, a) as the Rodrigues vector formula and as a matrix, g = pre . rot(axis, angle) . post . k.
 binding: mode A, four parts
@@ -14,11 +15,18 @@ binding: mode A, four parts
          for all of them, g(omega2) must be the Rz-rotated g(omega1) (raw C kernels, transform.compute_g_vectors, the
          numba copy, Ctransform, columnfile fast / slow); the g-vectors of sf2gv and of columnfile.updateGV fast / slow at
          every sibling setting go back through uncompute_g_vectors and one solution must be the peak's (omega * omegasign,
-         eta), tth its two-theta (code-level round trip, any omega sign, arbitrary wedge / chi).
+         eta), tth its two-theta (code-level round trip, any omega sign, arbitrary wedge / chi).  The sibling settings
+         include another wavelength (|g| scales with 1/lambda) and are ordered so that consecutive ones differ in the
+         wavelength only, the omega sign only, the wedge only, chi only: ONE columnfile per route is kept through all of
+         them (updateGV / updateGeometry alternately, its parameters edited in place or replaced) and must obey the norm
+         law, the omega law and the round trip for the CURRENT setting after every update.
          On EVERY batch (any t, the batch's own wedge / chi / translation with exact zeros where a switch is off - the
          corner set enumerates all 256 on/off combinations): ds = 2 sin(tth/2)/lambda = |g| = the model's exact
          2 sin(theta)/lambda on the columns of columnfile fast / slow, Ctransform.xyz2geometry, compute_geometry, (tth, gv)
-         of refinegrains.compute_gv and the numba route (point_by_point.compute_tth_eta, compute_gve);
+         of refinegrains.compute_gv and the numba route (point_by_point.compute_tth_eta, compute_gve), and on the columns of
+         a columnfile after its SECOND update when only a subset of the parameters was edited since the first (two of the
+         rotation G.SUBSETS per batch: every single parameter, flip, wedge+chi, translation, detector, non-detector, ...;
+         updateGeometry / updateGV in each order, compiled / Python route, four ways of editing);
          compute_sinsqth_from_xyz / sinth2_sqrt_deriv of the exact lab vector and of the documented chain
          compute_xyz_lab - compute_grain_origins = the model's sin^2(theta); transform.PixelLUT of the batch's parameters:
          xyz, tth, eta, k, sinthsq at the lattice's whole pixels = the record's exact values, and on every pixel of the
@@ -41,6 +49,14 @@ binding: mode A, four parts
          *_beyond_90; vacuity guards), the inverse machine's quadruples with d_x < 0 carry the exact sin^2(theta) =
          (|d| - d_x)/(2|d|) (invariant BraggLaw) against compute_sinsqth_from_xyz, sinth2_sqrt_deriv and the arctan recipe
          (reference and numba); both solutions of (ii) also go forward through the numba compute_g_vectors
+   length unit: UnitLaw makes the unit of pixel sizes, distance and translation free.  Every batch of the corner set goes
+         through (iii) written in mm, metres, 2^-10, 2^-20 and nanometres (units u^-1, u^-2 of the specification's factors
+         1000 and 1024, and 1000) and every other one through (i) in one unit of the rotation; the parameter sets met by the
+         simulation only on a half / a tenth.  Expected pixels, angles and g-vectors are the record's own, lengths times
+         the unit (notes per_unit; vacuity guards).  What PixelLUT holds at a whole pixel is truncated to whole length units
+         when it is built from the integer pixel grid (compute_xyz_lab keeps the integer dtype): matched against that exact
+         model and reported as finding C02-pixellut-integer-pixel-grid-truncated (KNOWN-FINDING if listed, else
+         notes["unlisted_findings"]); the laws on every pixel of the table are judged in every unit
    (iv)  every InitAx record (7 unit axes x 4 pre-rotations x wedge, chi, angle x 3 k-vectors): gv_general.wedgemat,
          chimat, wedgechi, chiwedge = the exact matrices; k_to_g (every None / matrix / default-axis arm) = g;
          rotation_axis.rotate_vectors / rotate_vectors_inverse with per-vector angles and through the matrix arm
@@ -62,6 +78,15 @@ REPLAYING = None
 
 
 def report(chk, J, kind, payload, par):
+    # a failure that matches a recorded defect of ImageD11 structurally (the judge decides that): KNOWN-FINDING if the defect
+    # is listed in known_findings.json; otherwise it is written down (notes["unlisted_findings"]) - what PixelLUT holds at
+    # a whole pixel is no clause of this property (C01 owns the values), the laws on the table are judged all the same
+    for fid, what in J.findings:
+        if chk.finding(fid) is not None:
+            chk.known_finding(fid, what)
+        else:
+            u = chk.notes.setdefault("unlisted_findings", {}).setdefault(fid, {"count": 0, "first": what})
+            u["count"] += 1
     if J.problems:
         what = "%s [%d disagreeing outputs; parameters %s]" % (J.problems[0], len(J.problems), json.dumps(par, sort_keys=True))
         if REPLAYING:                        # re-judging a saved case: nothing is written
@@ -71,30 +96,47 @@ def report(chk, J, kind, payload, par):
             chk.violation(what, dict(payload, kind=kind, problems=J.problems[:20]))
 
 
-def do_forward_batch(chk, rt, group, rng, stats, only=None, dear=True):
-    orc = G.Oracle(group)
+def do_forward_batch(chk, rt, group, rng, stats, only=None, dear=True, unit=None):
+    """only = None: every judge; a name or a tuple of names ("laws", "internal", "project"): those.  unit: the batch is
+    replayed in another length unit (G.Oracle): same expected angles, g-vectors and pixels"""
+    orc = G.Oracle(group, unit=unit)
     P = orc.P
-    count_geometry(orc, stats)
-    if orc.par["t"] == [0, 0, 0] and only in (None, "laws"):
+    payload = {"records": group}
+    if unit is None:
+        count_geometry(orc, stats)
+    else:
+        payload["unit"] = [orc.unit.numerator, orc.unit.denominator]
+        key = "unit_%s_" % orc.unit
+        st = stats.setdefault("per_unit", {})
+    if isinstance(only, str):
+        only = (only,)
+    only = only or ("laws", "internal", "project")
+    if orc.par["t"] == [0, 0, 0] and "laws" in only:
         J = G.judge_laws(rt, orc, rng, stats=stats)
         stats["law_batches"] += 1
         stats["comparisons"] += J.ncmp
         stats["worst_ratio"] = max(stats["worst_ratio"], J.worst)
-        report(chk, J, "laws", {"records": group}, P)
-    if only in (None, "internal"):
+        report(chk, J, "laws", payload, P)
+        if unit is not None:
+            st[key + "law_batches"] = st.get(key + "law_batches", 0) + 1
+    if "internal" in only:
         J = G.judge_internal(rt, orc, stats=stats, dear=dear)
         stats["internal_law_batches"] += 1
         stats["internal_law_batches_t_nonzero"] += int(orc.par["t"] != [0, 0, 0])
         stats["comparisons"] += J.ncmp
         stats["worst_ratio"] = max(stats["worst_ratio"], J.worst)
-        report(chk, J, "internal", {"records": group}, P)
-    if only in (None, "project"):
+        report(chk, J, "internal", payload, P)
+        if unit is not None:
+            st[key + "internal_batches"] = st.get(key + "internal_batches", 0) + 1
+    if "project" in only:
         J, k = G.judge_project(rt, orc, stats=stats, dear=dear)
         stats["projected"] += k
         stats["projection_skipped_ray_in_plane"] += orc.n - k
         stats["comparisons"] += J.ncmp
         stats["worst_ratio"] = max(stats["worst_ratio"], J.worst)
-        report(chk, J, "project", {"records": group}, P)
+        report(chk, J, "project", payload, P)
+        if unit is not None:
+            st[key + "projected_rows"] = st.get(key + "projected_rows", 0) + k
     return orc
 
 
@@ -210,7 +252,9 @@ def run(tier, replay=None):
         elif case["kind"] == "axis":
             do_axis_batch(chk, rt, case["records"], stats)
         else:
-            do_forward_batch(chk, rt, case["records"], rng, stats, only=case["kind"])
+            from fractions import Fraction
+            do_forward_batch(chk, rt, case["records"], rng, stats, only=case["kind"],
+                             unit=Fraction(*case["unit"]) if case.get("unit") else None)
         chk.traces += len(case["records"])
         chk.case(replay)
         chk.sample({"replayed": replay})
@@ -246,6 +290,8 @@ def run(tier, replay=None):
     raw = [r for r in raw if r["mode"] == "raw"]
     t0 = time.time()
     groups = G.group_records(recs)
+    units = G.unit_scales(recs)
+    chk.notes["length_units"] = [str(u) for u in units]
     for gi, group in enumerate(groups):
         # every batch of the exhaustive corner set (all 256 on/off combinations x both omega signs) goes through every
         # route; a parameter set met by the simulation only (mostly one peak) goes through the object-building routes
@@ -253,6 +299,23 @@ def run(tier, replay=None):
         dear = len(group) >= 4 or rng.random() < 1 / 3.
         with G.omp_threads(rt, 2):           # small batches: waking 16 threads costs more than the kernel
             do_forward_batch(chk, rt, group, rng, stats, dear=dear)
+            # the length unit is free (UnitLaw): the same records written in mm, metres, 2^-10, 2^-20 and in nanometres
+            # must give the record's angles, g-vectors and pixels.  Every batch of the corner set goes through the
+            # detector round trips in every unit and (every other one) through the laws in one unit of the rotation; of
+            # the parameter sets met by the simulation only a half / a tenth.  Thorough tier (16384 batches of 16 peaks):
+            # round trips in one unit of the rotation per batch, the laws on every eighth batch
+            u = units[gi % len(units)]
+            r = rng.random()
+            if len(group) >= 4:
+                for uu in (units if tier == "quick" else (units[(gi // 3) % len(units)],)):
+                    do_forward_batch(chk, rt, group, rng, stats, only="project", dear=True, unit=uu)
+                if gi % (2 if tier == "quick" else 8) == 0:
+                    do_forward_batch(chk, rt, group, rng, stats, only=("laws", "internal"), dear=True, unit=u)
+            else:
+                if r < 0.5:
+                    do_forward_batch(chk, rt, group, rng, stats, only="project", dear=dear, unit=u)
+                if r < 0.1:
+                    do_forward_batch(chk, rt, group, rng, stats, only=("laws", "internal"), dear=dear, unit=u)
         for r in group:
             p = r["par"]
             chk.case(("fwd", p["sw"], p["flip"], p["sgn"], p["zs"], p["ys"], p["pk"], p["om"]),
@@ -321,6 +384,18 @@ def run(tier, replay=None):
                   "numba_internal_rows_t_nonzero", "g_roundtrip_rows_t_nonzero", "inverse_numba_forward_rows"):
             if stats.get(k, 0) < 10:
                 raise common.MachineryError("vacuity: %s = %d" % (k, stats.get(k, 0)))
+        # histories of one columnfile with a subset of the parameters edited, and every length unit, were exercised
+        for k in ("internal_subset_histories", "law_kept_columnfile_updates", "roundtrip_rows_kept_columnfile"):
+            if stats.get(k, 0) < 100:
+                raise common.MachineryError("vacuity: %s = %d" % (k, stats.get(k, 0)))
+        for nm, keys in G.SUBSETS:
+            if stats.get("internal_subset_history:" + nm, 0) < 5:
+                raise common.MachineryError("vacuity: subset history '%s' ran %d times" % (nm, stats.get("internal_subset_history:" + nm, 0)))
+        for uu in units:
+            for k, least in (("projected_rows", 100), ("internal_batches", 20), ("law_batches", 3)):
+                if stats["per_unit"].get("unit_%s_%s" % (uu, k), 0) < least:
+                    raise common.MachineryError("vacuity: length unit %s: %s = %d" % (uu, k, stats["per_unit"].get(
+                        "unit_%s_%s" % (uu, k), 0)))
         # every on/off combination with exact zeros: the numba round trips saw all 224 switch sets with a translation (the
         # g round trip is not defined where the beam lies along the rotation axis), the inverse machine all four
         # wedge / chi on/off combinations
